@@ -310,9 +310,34 @@ func (w *Writer) writeGlobalConstExpression(handle ir.ExpressionHandle) error {
 		return w.writeGlobalSplatExpression(e)
 	case ir.ExprBinary:
 		return w.writeGlobalBinaryExpression(e, handle)
+	case ir.ExprUnary:
+		return w.writeGlobalUnaryExpression(e)
 	default:
 		return fmt.Errorf("unsupported global expression type: %T", expr.Kind)
 	}
+}
+
+// writeGlobalUnaryExpression writes a unary expression from global expressions
+// (e.g. the negative components of `var<private> p = vec2<i32>(-1, 2);`).
+func (w *Writer) writeGlobalUnaryExpression(e ir.ExprUnary) error {
+	var op string
+	switch e.Op {
+	case ir.UnaryNegate:
+		op = "-"
+	case ir.UnaryLogicalNot:
+		op = "!"
+	case ir.UnaryBitwiseNot:
+		op = "~"
+	default:
+		return fmt.Errorf("unsupported global unary operator: %d", e.Op)
+	}
+	w.Out.WriteString(op)
+	w.Out.WriteByte('(')
+	if err := w.writeGlobalConstExpression(e.Expr); err != nil {
+		return fmt.Errorf("global unary operand: %w", err)
+	}
+	w.Out.WriteByte(')')
+	return nil
 }
 
 // writeGlobalBinaryExpression writes a binary expression from global expressions.
